@@ -164,10 +164,11 @@ fn annot_strategy(t: Tier) -> BoxedStrategy<Case> {
 }
 
 fn corpus_strategy(t: Tier) -> BoxedStrategy<Case> {
+    // the heavy files run in the plain leg only (each chain of five saves and loads of such a
+    // file holds gigabytes; 16 of them at once exhaust the machine)
+    let _ = t;
     let mut files = corpus_files();
-    if t == Tier::Quick {
-        files.retain(|f| !HEAVY.contains(&f.as_str()));
-    }
+    files.retain(|f| !HEAVY.contains(&f.as_str()));
     (prop::sample::select(files), edit_strategy(), any::<bool>(), any::<bool>())
         .prop_map(|(f, edit, light, lazy_edit)| Case {
             source: Source::Corpus(f),
@@ -549,7 +550,7 @@ fn subs() -> Vec<Box<dyn DynSub>> {
         Box::new(Sub {
             name: "corpus-edit",
             strategy: corpus_strategy,
-            cases: (4, 200),
+            cases: (4, 60),
             check: check_case,
             max_shrink_iters: 300,
         }),
